@@ -187,6 +187,10 @@ def run(ctx, rep):
     ok = bool(exts) and all(rules.call_dominates(run_, exts, c.bb) for c in handlers) and len(handlers) > 40
     rep.ob("C07.fresh-frame", "Function::run pushes a frame before any instruction executes", "ok" if ok else "violated", "", run_.span, fn=run_.path)
 
+    # ---- (a') capture depth ordering ------------------------------------------------
+    from props import _netdeps
+    _netdeps.run(F, rep, "C07.net-dependencies")
+
     # ---- (a) ---------------------------------------------------------------------
     if _visit is not None:
         _visit.run(F, rep, "C07.visit")
